@@ -231,6 +231,10 @@ class CellCycleController:
     def release_all_resources(self, ctx: OperationContext) -> None:
         """Release all resources held by an operation."""
         for resource_id in list(ctx.acquired_resources.keys()):
+            lock = ctx.acquired_resources[resource_id]
+            # The operation is ending: drop re-entrant holds too, not just one level
+            while lock.owner == ctx.operation_id and lock.hold_count > 1:
+                lock.release(owner=ctx.operation_id)
             self.release_resource(ctx, resource_id)
 
     def check_deadlock(self) -> Optional[DeadlockInfo]:
